@@ -68,6 +68,64 @@ def validate_trace(lines, viol, seen):
     return n
 
 
+HISTORY_TEXTS = [
+    'int a[int[0,3]][int[0,1]][2][int[0,2]] = { 1 };\nint f(int p[int[0,1]][int[0,1]], int &q[2]) { int l[int[0,1]][int[0,2]][3]; return l[0][0][0]; }\ntypedef struct { int m[int[0,1]][int[0,1]][2]; } s_t;\n',
+    'typedef int[0,3] t_t;\nint b[t_t][t_t][t_t];\nchan c[int[0,1]][t_t];\nprocess P(int &r[int[0,1]][int[0,1]], const int k) { clock x[int[0,1]][t_t]; state A { x[0][0] <= 3 }, B, C; init A;\n'
+    'trans A -> B { select i : int[0,1], j : t_t; guard b[i][j][0] == 0; sync c[i][j]!; assign b[i][j][0] = 1; }, -> C { guard k > 0; }, -> A { }; }\nsystem P;\n',
+    'int g;\nvoid h() { for (i : int[0,3]) { for (j : int[0,1]) { while (g < 3) { if (g == 1) g++; else { do { g--; } while (g > 0); } } } } }\nint v[2][3] = { { 1, 2, 3 }, { 4, 5, 6 } };\n'
+    'struct { int a; struct { int b[2]; } c[int[0,1]][int[0,1]]; } w;\n',
+]
+HISTORY_AFTER_XTA = ('int i; int b[3]; int c[2][2]; int d[int[0,1]]; int e[int[0,1]][3][int[0,2]];\nprocess Q() { state S1, S2, S3; init S1; trans S1 -> S2 { guard b[0] == 0; }, -> S3 { guard c[1][1] == 1; }; }\nsystem Q;\n')
+HISTORY_AFTER_XML = ('<?xml version="1.0" encoding="utf-8"?><nta><declaration>int i; int b[3]; int d[int[0,1]][2];</declaration><template><name>T</name><parameter>int &amp;p[3], const int k</parameter>'
+                     '<declaration>clock x[2];</declaration><location id="id0"><label kind="invariant">x[0] &lt;= 3</label></location><location id="id1"/><init ref="id0"/>'
+                     '<transition><source ref="id0"/><target ref="id1"/><label kind="select">s : int[0,1]</label><label kind="guard">b[s] == 0</label><label kind="assignment">b[s] = d[s][1]</label></transition></template>'
+                     '<system>R = T(b, 1);\nsystem R;</system></nta>')
+
+
+def history_block(run, thorough):
+    """every token-boundary prefix of texts rich in nested constructs, each as a parse that ends at the end of input, followed in the same process by a legal XTA
+    model, a legal XML model and a query: none of these may crash, and the legal ones must be accepted as they are in a fresh process"""
+    rng = run.rng
+    prefixes = []
+    for t in HISTORY_TEXTS:
+        cuts = [m.end() for m in re.finditer(r'\w+|[^\w\s]', t)]
+        if not thorough:
+            cuts = sorted(rng.sample(cuts, min(len(cuts), 110)))
+        prefixes += [('xta', t[:c]) for c in cuts]
+        prefixes += [('xmldecl', t[:c]) for c in cuts[::3]]
+    chains = [prefixes[i::16] for i in range(16)]
+    jobs = []
+    for ci, ch in enumerate(chains):
+        j = vlib.Job()
+        for k, (kind, pre) in enumerate(ch):
+            if kind == 'xta':
+                j.case('hp%d_%d' % (ci, k)).model('xta', pre).end()
+            else:
+                j.case('hp%d_%d' % (ci, k)).model('xml', crashgen.wrap_xml(pre)).end()
+            j.case('ha%d_%d' % (ci, k)).model('xta', HISTORY_AFTER_XTA).dump('errors').end()
+            j.case('hb%d_%d' % (ci, k)).model('xml', HISTORY_AFTER_XML).dump('errors').query('E<> b[0] == 1 && d[1][0] >= 0', rt=False).end()
+        jobs.append(j)
+    import concurrent.futures
+    with concurrent.futures.ThreadPoolExecutor(max_workers=16) as ex:
+        outs = list(ex.map(lambda j: vlib.run_jobs(j, flavour='asan', shards=1), jobs))
+    for ci, (ch, r) in enumerate(zip(chains, outs)):
+        for k, (kind, pre) in enumerate(ch):
+            st = [(c, r.get('%s%d_%d' % (c, ci, k), dict(status='MISSING', cmds=[]))) for c in ('hp', 'ha', 'hb')]
+            dead = next(((c, x) for c, x in st if x['status'] != 'ok'), None)
+            if dead:
+                what = {'hp': 'the aborted parse itself', 'ha': 'a legal XTA model parsed after it', 'hb': 'a legal XML model and query parsed after it'}[dead[0]]
+                run.fail('%s in %s: a %s text that ends at the end of input inside a construct, then legal models in the same process' % (dead[1]['status'], what, kind),
+                         dict(history=[dict(entry=kk, text=pp) for kk, pp in ch[max(0, k - 2):k + 1]], then_xta=HISTORY_AFTER_XTA, then_xml=HISTORY_AFTER_XML, status=dead[1]['status'], stderr=(r.get('_stderr') or '')[-1200:]),
+                         shape='crash:history:%s:%s' % (dead[0], dead[1]['status'].split()[0]))
+                break      # the process is gone: the rest of the chain did not run
+            for c, x in st[1:]:
+                errs = [l for cc in x['cmds'] for l in cc[2] if l.startswith('error')]
+                if errs:
+                    run.fail('a legal model is rejected when it is parsed after an aborted parse in the same process: ' + errs[0][:150],
+                             dict(history=[dict(entry=kind, text=pre)], model=HISTORY_AFTER_XTA if c == 'ha' else HISTORY_AFTER_XML, errors=errs[:3]), shape='history:legal-model-rejected')
+    return len(prefixes)
+
+
 def check(run):
     thorough = run.tier == 'thorough'
     rng = run.rng
@@ -264,6 +322,9 @@ def check(run):
         if c['status'] != 'ok':
             run.fail('%s on a %s structure of %d elements (%d characters) through parse_XTA part %d' % (c['status'], kind, n, ln, part), dict(structure=kind, elements=n, part=part, status=c['status'], generator='crashgen.scale(%r, %d)' % (kind, n)),
                      shape='deep-recursion:%s:%d' % (kind, n))
+    # ---------------- histories: a parse that ends in the middle of a construct (end of input: bison aborts without recovery, so whatever the grammar's
+    # actions keep in file-static variables stays as it was), then ordinary models through the same entry points in the same process ----------------
+    nh = history_block(run, thorough)
     entries = collections.Counter()
     outcomes = collections.Counter()
     for cid, (entry, text) in ssrc.items():
@@ -278,7 +339,7 @@ def check(run):
         nonstd = [l for l in flat if l.startswith('EXC') and 'what=' not in l]
         if nonstd:
             run.fail('an exception that is not a std::exception escaped %s' % entry, dict(entry=entry, input=text, line=nonstd[0]), shape='nonstd-exception')
-    run.cov.update(evaluations=nt + ns + len(sweep) + len(big) + 2 * len(crashgen.SCALE_KINDS) + len(crashgen.DECL) - 1, declaration_seeds_type_checked=len(crashgen.DECL) - 1, reader_structural_faults=len(sweep), scaled_structures=len(big) + 2 * len(crashgen.SCALE_KINDS), distinct_nontrivial=len(set(t for _, t in srcs.values())) + len(set(t for _, t in ssrc.values())), traces_validated_against_impl=nt,
+    run.cov.update(histories_after_aborted_parses=nh, evaluations=nh + nt + ns + len(sweep) + len(big) + 2 * len(crashgen.SCALE_KINDS) + len(crashgen.DECL) - 1, declaration_seeds_type_checked=len(crashgen.DECL) - 1, reader_structural_faults=len(sweep), scaled_structures=len(big) + 2 * len(crashgen.SCALE_KINDS), distinct_nontrivial=len(set(t for _, t in srcs.values())) + len(set(t for _, t in ssrc.values())), traces_validated_against_impl=nt,
                    callbacks_observed=ncalls, lr_replays=replayed, distinct_callbacks_observed=len(seen), callbacks_in_table=len(gen_lr.EFFECTS), automaton_states=info['states'], grammar_rules=info['rules'],
                    counting_symbols=info['stacks'][gen_lr.F]['counting_symbols'], entry_points=dict(entries), outcomes=dict(outcomes),
                    rule='(A) Coq: check_all on the LR(0) item automaton, rule actions and effect table regenerated from parser.y (bison --xml), for the expression, type and frame stacks. '
